@@ -248,6 +248,9 @@ pub fn panic_sig(p: &str) -> String {
     let (loc, msg) = p.split_once(" :: ").unwrap_or((p, ""));
     // strip the absolute prefix of the repository
     let mut loc = loc.replace("/repo/", "");
+    if let Ok(r) = std::env::var("VERIF_REPO") {
+        loc = loc.replace(&format!("{}/", r.trim_end_matches('/')), "");
+    }
     // the GUI binary is compiled from a verbatim copy generated by vgui/build.rs (same line numbers)
     for gen in ["/out/mstsc_plain.rs", "/out/mstsc_shuttle.rs"] {
         if let Some(i) = loc.find(gen) {
